@@ -3705,7 +3705,13 @@ class SQLCompiler(Compiled):
         return text
 
     def _generate_generic_unary_operator(self, unary, opstring, **kw):
-        return opstring + unary.element._compiler_dispatch(self, **kw)
+        text = unary.element._compiler_dispatch(self, **kw)
+        if opstring == "-" and text.startswith(("-", "__[POSTCOMPILE_")):
+            # "-" directly followed by an operand that renders with a leading
+            # "-" (a negative literal, also one substituted later for a
+            # literal_execute parameter) would read "--": a SQL comment
+            return opstring + " " + text
+        return opstring + text
 
     def _generate_generic_unary_modifier(self, unary, opstring, **kw):
         return unary.element._compiler_dispatch(self, **kw) + opstring
